@@ -343,7 +343,8 @@ fn mem_exec(p: P, keys: &Keys) -> ExecEnd {
         let ff = p.fault_free;
         let writer: Option<memory::State<CS>> = if remover == Some(t) { Some(state.clone()) } else { None };
         hs.push(shuttle::thread::spawn(move || {
-            let client = Client::new(st);
+            let client = sim::Leaky::new(Client::new(st));
+            let writer = sim::Leaky::new(writer);
             for round in 0..2 {
                 if sim::has_violation() {
                     return;
@@ -365,7 +366,7 @@ fn mem_exec(p: P, keys: &Keys) -> ExecEnd {
                         sim::violation("C40.seal-failed", "setup-error", format!("setup_seal_ctx failed with {e}"));
                         return;
                     }
-                    Ok(Ok(c)) => c,
+                    Ok(Ok(c)) => sim::Leaky::new(c),
                 };
                 {
                     let mut s = sh.lock().expect("sh");
@@ -422,7 +423,7 @@ fn mem_exec(p: P, keys: &Keys) -> ExecEnd {
                 }
                 // possibly remove the channel while holding the context
                 if round == 0 {
-                    if let Some(w) = &writer {
+                    if let Some(w) = &*writer {
                         sim::log_event(t, "remove");
                         sh.lock().expect("sh").removal_invoked = true;
                         if let Err(e) = w.remove(id) {
@@ -434,9 +435,8 @@ fn mem_exec(p: P, keys: &Keys) -> ExecEnd {
                 }
                 sh.lock().expect("sh").live -= 1;
                 sim::log_event(t, "drop ctx");
-                sim::drop_or_leak(ctx);
+                drop(ctx);
             }
-            sim::drop_or_leak((client, writer));
         }));
     }
     for h in hs {
